@@ -296,6 +296,26 @@ def epoch_history(r):
     return ops
 
 
+def wide_clear_history(r):
+    """one batch of 130..333 one-byte blocks, then clears that span several 32-block words of the bitfield page over words that were
+    emptied before (only the MIDDLE of the range changes anything), placed in every phase of the flush cadence and around reopens"""
+    n = r.choice([130, 200, 333])
+    h = [("append", [bytes([r.randrange(256)]) for _ in range(n)])]
+    for _ in range(r.choice([1, 2, 3])):
+        w0 = r.randrange(0, n // 32 - 2)
+        w1 = r.randrange(w0 + 2, n // 32 + 1)
+        lo = w0 * 32 + r.choice([0, 0, 5]); hi = min(n, w1 * 32 + r.choice([32, 32, 20]))
+        pre = [("clear", lo, (w0 + 1) * 32), ("clear", w1 * 32, hi)]
+        r.shuffle(pre)
+        h += [c for c in pre if c[1] < c[2]]
+        if r.random() < 0.5:
+            h.append(("reopen",))
+        h.append(("clear", lo, r.choice([hi, hi, n + 40, 1000])))
+        h += [("clear", n - 1, n)] * r.choice([0, 1, 3, 4])
+        h.append(("reopen",))
+    return h
+
+
 def random_history(r, nops, reopen_p=0.12, clear_p=0.15, big_batch_p=0.0):
     ops, length = [], 0
     for _ in range(nops):
